@@ -407,7 +407,6 @@ class Type3Tag(nfc.tag.Tag):
         """
         nmaxb = [0, 0x10000]
         while nmaxb[1] - nmaxb[0] > 1:
-            print(nmaxb)
             block = nmaxb[0] + (nmaxb[1] - nmaxb[0]) // 2
             try:
                 self.read_from_ndef_service(block)
